@@ -1735,3 +1735,15 @@ _K3KER2 = ("K3 (second batch): core.go Rect64.IsEmpty / MidPoint / Contains / In
            "properly, topX is exactly the vertex at both ends of an edge and on vertical edges); the rounding error of topX strictly inside an edge is NOT bounded by a theorem")
 for _pid in ('C01', 'C02', 'C06', 'C11'):
     PROPS[_pid]['trust'] = list(PROPS[_pid]['trust']) + [_K3KER2]
+
+_K3AEL = ("K3: the first three statements of engine.go:isValidAelOrder (all that runs unless the two edges are collinear) are translated on every run as a prefix whose remaining statements are a "
+          "parameter (harness/kernels2.go) and proved to order a new edge in the active edge list geometrically: by current X, else — coordinates within 2^29, both edges leaving the common point "
+          "upwards, not collinear — to the right exactly when its line is to the right of the resident's at every real ordinate above the scanline (Model/AelOrderProofs.v, depends on the standard "
+          "library's real-number axioms); the collinear tie-breaks and the global order invariant of the list are NOT proved")
+PROPS['C01']['trust'] = list(PROPS['C01']['trust']) + [_K3AEL]
+_K3FP = ("K3 tripwire: the SHA-256 of the normalised source text of the functions coq/Model models by hand is regenerated on every run (harness/fingerprints.go -> Gen/Fingerprints_gen.v) and "
+         "stated equal to the values recorded when the models were last reconciled with the code (Model/Fingerprints.v, written only by tools/update_fingerprints.sh on a clean tree); not a "
+         "semantic tie: any edit of a modelled function breaks the obligation, the check then widens its search (three more streams) and reports the broken obligation with or without a failing input")
+for _pid in ('C04', 'C08', 'C14', 'C15', 'C16'):
+    PROPS[_pid]['trust'] = list(PROPS[_pid]['trust']) + [_K3FP]
+PROPS['C19']['trust'] = list(PROPS['C19']['trust']) + [_K3KER2]
